@@ -430,19 +430,19 @@ def csvCls (m : List (List Key)) : String := if Spec.csvOk m then "good" else "K
 def csvRtCase (id : String) (m : List (List Key)) : Case :=
   let v := Csv.matrixR m
   evalCase id (if Spec.csvOk m then "csv/roundtrip" else "csv/roundtrip/guarded-shape") (csvCls m)
-    s!"//encoding.csv.decode(//encoding.csv.encode({v.src}))" (Csv.roundTrip v).obs v.den.canon
+    s!"//encoding.csv.decode(//encoding.csv.encode({v.src}))" (Csv.roundTrip 44 v).obs v.den.canon
 
 def textObs (t : Key) : String := (R.bytes 0 (utf8s t)).den.canon
 
 def csvEncCase (id : String) (m : List (List Key)) : Case :=
   let v := Csv.matrixR m
-  let o := match Csv.encode v with
+  let o := match Csv.encode 44 v with
     | .ok t => textObs t
     | _ => "error"
   evalCase id "csv/encode-text" "good" s!"//encoding.csv.encode({v.src})" o o
 
 def csvDecCase (id : String) (t : Key) : Case :=
-  let o := (Csv.decode t).obs
+  let o := (Csv.decode 44 t).obs
   evalCase id "csv/decode-text" "good" s!"//encoding.csv.decode({textLit t})" o o
 
 /-! bits -/
@@ -638,7 +638,7 @@ def genMatrices : Gen (List (List (List Key))) := do
 
 def multiCsvCase (id : String) (ms : List (List (List Key))) (shape : Nat) (encCfg decCfg : String) : Case :=
   let vs := ms.map Csv.matrixR
-  let model := vs.map Csv.roundTrip
+  let model := vs.map (Csv.roundTrip 44)
   let spec := vs.map Out.ok
   let cls := if ms.all Spec.csvOk then "good" else "KF-csv-stdlib"
   let ds := vs.map R.src
@@ -747,11 +747,70 @@ def genNonFiniteCase (id : String) : Gen Case := do
     pure (lawCase id (c.name ++ "/extreme-numbers") "good"
       s!"let v = {decSrc c strict}('{d}'); (l: v, r: {decSrc c strict}({encSrc c strict}(v)))")
 
+/-! ### CSV with non-default configuration on both sides.  Matrices of plain cells in which exactly ONE cell
+needs quoting (it contains the configured separator, the default comma, a quote, a leading space, a line
+break, …), so nothing else forces a quoting path.  `decoder(cfg)(encoder(cfg)(m))` must be `m`. -/
+
+def csvSeps : List Nat := [59, 124, 9, 58, 32, 44]
+
+/-- the one special cell, for separator `sep` -/
+def specialCells (sep : Nat) : List Key :=
+  [[97, sep, 98], [sep], [sep, 97], [97, sep], [97, 44, 98], [113, 34, 114], [34], [32, 120], [9, 120], [97, 10, 98],
+   [10], [97, 13, 98], [92, 46], [97, 59, 98], [97, 124, 98], [97, 58, 98], [120, 32, 121], [0xA0, 97], [35, 120]]
+
+def plainCells : List Key := [[97], [98, 99], [120, 121, 122], [49], [50, 51], [65], [0xE9]]
+
+def genOneSpecial (sep : Nat) : Gen (List (List Key)) := do
+  let rows ← rand 3
+  let cols ← rand 3
+  let m ← genList (rows + 1) (genList (cols + 1) (pick plainCells))
+  let i ← rand (rows + 1)
+  let j ← rand (cols + 1)
+  let sp ← pick (specialCells sep)
+  pure (m.mapIdx (fun a r => if a = i then r.mapIdx (fun b c => if b = j then sp else c) else r))
+
+def csvCfgCase (id : String) (sep : Nat) (m : List (List Key)) (variant : Nat) : Case :=
+  let v := Csv.matrixR m
+  let hasCR := m.any (fun r => r.any (fun f => f.contains 13))
+  let hashFirst := m.any (fun r => match r with | (35 :: _) :: _ => true | _ => false)
+  let ncols := (m.headD []).length
+  match variant with
+  | 0 =>
+    -- separator only: the model (parametric in the separator) predicts the result
+    evalCase id "csv/config/separator" (csvCls m)
+      s!"//encoding.csv.decoder((comma: {sep}))(//encoding.csv.encoder((comma: {sep}))({v.src}))"
+      (Csv.roundTrip sep v).obs v.den.canon
+  | 1 =>
+    -- the text the configured encoder writes
+    let o := match Csv.encode sep v with
+      | .ok t => textObs t
+      | _ => "error"
+    evalCase id "csv/config/encode-text" "good" s!"//encoding.csv.encoder((comma: {sep}, crlf: false))({v.src})" o o
+  | _ =>
+    -- further options on both sides (outside the Lean model): the round trip law, on the guarded class
+    let crlf := variant % 2 == 0
+    let decExtra := ["", ", lazyQuotes: true", s!", fieldsPerRecord: {ncols}", ", fieldsPerRecord: (-1)",
+      ", comment: 35", ", trimLeadingSpace: true"].getD (variant / 2 % 6) ""
+    let trimBad := variant / 2 % 6 == 5 && (sep == 32 || sep == 9)
+    let commentBad := variant / 2 % 6 == 4 && (hashFirst || sep == 35)
+    let guarded := Spec.csvOk m && !(crlf && hasCR) && !trimBad && !commentBad
+    let prog := s!"//encoding.csv.decoder((comma: {sep}{decExtra}))(//encoding.csv.encoder((comma: {sep}, crlf: {crlf}))({v.src}))"
+    if guarded then pinCase id "csv/config/options" prog v.src "same"
+    else { pinCase id "csv/config/options/guarded-shape" prog v.src "same" with cls := "KF-csv-stdlib", spec := "same" }
+
+def genCsvCfgCase (id : String) : Gen Case := do
+  let sep ← pick csvSeps
+  let m ← if (← chance 4 5) then genOneSpecial sep else genMatrix
+  let r ← rand 10
+  let variant ← if r < 4 then pure 0 else if r < 5 then pure 1 else do pure ((← rand 12) + 2)
+  pure (csvCfgCase id sep m variant)
+
 def genCase (idx : Nat) (big : Bool) : Gen Case := do
   let id := s!"C13-{idx}"
   let depth := if big then 3 else 2
-  let r ← rand 119
-  if r ≥ 114 then genNonFiniteCase id
+  let r ← rand 127
+  if r ≥ 119 then genCsvCfgCase id
+  else if r ≥ 114 then genNonFiniteCase id
   else if r ≥ 100 then genMultiCase id (depth - 1)
   else if r < 30 then
     let j ← genJ depth
@@ -855,6 +914,10 @@ def corpus : List Case :=
     { id := "C13-corpus-47", cls := "KF-wire-nonfinite-panic", kind := "wire", stratum := "wire/non-finite",
       model := "panic", spec := "error", payload := ["(a: [1, 1/0])"] },
     evalCase "C13-corpus-48" "corpus" "good" "//encoding.json.decode('1e999')" "error" "error",
+    -- a cell containing the CONFIGURED separator, nothing else needing quotes
+    csvCfgCase "C13-corpus-49" 59 [[[97, 59, 98], [99]]] 0,
+    csvCfgCase "C13-corpus-50" 59 [[[97, 59, 98], [99]]] 1,
+    csvCfgCase "C13-corpus-51" 9 [[[97], [98]], [[99, 9, 100], [101]]] 0,
     -- configuration forms of the codecs
     evalCase "C13-corpus-34" "corpus" "good"
       "//encoding.json.decode(//encoding.json.encode_indent((a: [1, (s: 'x<>&'), {'k': ()}])))"
